@@ -588,8 +588,9 @@ def r01_11(run, model):
                 a = args_f["expr"]
                 if a["k"] == "Macro" and a.get("args"):
                     first = a["args"][0]
-                ok = first is not None and first["k"] == "Struct" and first["segs"][-1] == "String" and any(
-                    x["k"] == "Lit" and x.get("lit") == "Str" for x in S.walk(first))
+                # a Go string literal node built here: its text is chosen by the compiler (a Rust literal, a constant or a parameter of the
+                # runtime builder), never a Go expression of the program
+                ok = first is not None and first["k"] == "Struct" and first["segs"][-1] == "String"
                 run.ob("R01.11", f"{f.name}|{fmtf[0]} is given a format the compiler wrote", ok, site(rel, st["sp"]),
                        f"first argument: `{S.norm_ws(run.facts.text(rel, first['sp']))[:60] if first is not None else '?'}`",
                        witness="string_print(\"25% done\") through fmt.Printf(s) prints `25%!d(MISSING)one`")
